@@ -686,6 +686,9 @@ def describe(scene_name) -> dict:
                 ops.append(dict(base, k="get", v=0, role="getter"))
                 if member.fset is not None:
                     ops.append(dict(base, k="set", v=0, role="mutator"))
+                    none_at = _none_index(T, name)
+                    if none_at:  # "reset to nothing" is a write path of its own (delete instead of write)
+                        ops.append(dict(base, k="set", v=none_at, role="mutator"))
             elif callable(member):
                 role = "getter" if is_getter_method(name) else "mutator"
                 sig_required = _required_params(member)
@@ -697,6 +700,19 @@ def describe(scene_name) -> dict:
                     missing.append(f"{owner}.{name}{sig_required}")
     ws.close()
     return {"scene": scene_name, "ops": ops, "missing": missing}
+
+
+def _none_index(T, attr) -> int:
+    if attr in domains.SKIP:
+        return 0
+    try:
+        vals = domains.values_for(T, attr)
+    except Exception:  # pylint: disable=broad-except
+        return 0
+    for i, v in enumerate(vals):
+        if v is None:
+            return i
+    return 0
 
 
 def _stable_cls(cls) -> str:
@@ -964,27 +980,52 @@ def _light_state(env) -> str:
 
 
 def close_witness(prev) -> str:
-    """Witness of something seen at the final close(): named after the op that preceded it (the ops on
-    concatenated storage share one mechanism - the cached attribute table - hence one witness per kind)."""
+    """Witness of something seen at the final close(): named after the op that preceded it."""
     if prev is None:
         return "close"
-    if prev["k"] != "helper" and prev["storage"] != "plain":
-        return f"close-after:{prev['k']}[{prev['storage']}]"
     return "close-after:" + witness(prev)
 
 
-def run_ro(scene, ops, workdir) -> dict:
-    """Read-only run: outcome of every op, the direct clauses after every op (the last op is the final close)."""
+SESSIONS = ("r", "reopen_r", "fallback_r")
+
+
+def open_read_only(path, session):
+    """The ways of ending up with a read-only handle:
+    "r"           Workspace(path, mode="r")
+    "reopen_r"    Workspace(path) (default mode), close(), open(mode="r")
+    "fallback_r"  Workspace(path) (default mode) while the file cannot be opened for writing: Workspace.open falls
+                  back to "r" on OSError (the process runs as root, so a chmod would not bite; the OSError comes from
+                  HDF5 refusing write access to a file another handle of the process holds read-only)."""
     from geoh5py.workspace import Workspace
 
+    if session == "r":
+        return Workspace(path, mode="r")
+    if session == "reopen_r":
+        ws = Workspace(path)
+        ws.close()
+        ws.open(mode="r")
+    elif session == "fallback_r":
+        holder = h5py.File(path, "r")
+        ws = Workspace(path)
+        ws._c10_holder = holder  # pylint: disable=protected-access
+    else:
+        raise ValueError(session)
+    if _handle_state(ws) != "r":
+        raise core.HarnessError(f"session {session} did not give a read-only handle")
+    return ws
+
+
+def run_ro(scene, ops, workdir, session="r") -> dict:
+    """Read-only run: outcome of every op, the direct clauses after every op (the last op is the final close)."""
     path = workdir / f"ro_{workdir.name}.geoh5"
     path.write_bytes(scene["bytes"])
     world.reset("desc")  # the scene was built from the ascending stream: new identifiers never collide
     del OPENS[:]
     source = str(path.resolve())
-    tracked = {source: scene["sha"]}
-    ws = Workspace(path, mode="r")
+    ws = open_read_only(path, session)
+    tracked = {source: _sha(path)}  # baseline once the read-only session exists
     env = Env(scene, ws, path, workdir, "ro")
+    env.opens_mark = len(OPENS)
     viol, outcomes, errors = [], [], []
     seen_opens = len(OPENS)
 
@@ -1141,7 +1182,7 @@ def run_case(case, need_twin="auto") -> dict:
     last = len(user_ops) - 1
     workdir = Path(tempfile.mkdtemp(prefix="c10_", dir=str(world.scratch())))
     try:
-        ro = run_ro(scene, ops, workdir)
+        ro = run_ro(scene, ops, workdir, case.get("session", "r"))
         viol = list(ro["viol"])
         twin = None
         if need_twin == "always" or all(o == "ok" for o in ro["outcomes"][: last + 1]):
